@@ -9,6 +9,8 @@ def run(ctx):
     q = ctx.quick
     ctx.model_check("MC_Walk", "faulty", constants=W.consts("CandFQ" if q else "CandFT", "RootF", 2, "{0,1,2}", True, '{"strict","warn"}'),
                     invariants=W.INV_FAULTY, constraints=["NreqCap"], must_cover=["Round", "Done"], timeout=3000)
+    ctx.model_check("MC_Walk", "faulty_terminates", constants=W.consts("CandFQ", "RootF", 2, "{0,1,2}", True, '{"strict","warn"}'),
+                    properties=["Terminates"], must_cover=["Round"], timeout=3000)    # liveness: every walk ends whatever F is
     if not q:
         ctx.model_check("MC_Walk", "selftest_noprogress", constants=W.consts("CandFQ", "RootF", 2, "{1,2}", True, '{"strict"}', PinNoProgress=True),
                         invariants=W.INV_FAULTY, constraints=["NreqCap"], expect=["NoReask", "Bounded"])
